@@ -232,6 +232,92 @@ def seq_tokens(lib, p11drv, seed, idx):
                     what = 'token info' if now[0] != b4[0] else 'session states' if now[1] != b4[1] else 'objects'
                     bad('a %s addressed to tok%d changed the %s of tok%d' % (choice, j, what, k))
                     break
+        if not findings:
+            # last: one more token whose label uses all 32 characters of the field (no blank padding at all)
+            lab32 = 'full' + ''.join(rng.choice('ABCDEFGHJKLMNPQRSTUVWXYZ23456789') for _ in range(28))
+            r = p.op('inittoken tfree %s %s' % (newpin('0123456789'), lab32))
+            if r.get('rv') == '0x0':
+                toks = [t.split('/')[0] for t in p.op('slots').get('toks', '').split(',')]
+                if lab32 not in toks:
+                    bad('a token initialised with the 32-character label %s reports %s' % (lab32, [t for t in toks if t.startswith('full')] or 'no such label'))
     finally:
         p.close()
     return {'i': idx, 'trace': [(l[:160], r) for l, r in p.trace], 'findings': findings[:3], 'model_dis': [], 'model_evals': 0, 'stats': stats}
+
+
+def seq_failed_state(lib, p11drv, seed, idx):
+    """C03, last clause, without a model: a call that FAILS leaves sessions and login state as they were.  Random histories over
+    one token; every failing call is followed by a read of the state of every open session (C_GetSessionInfo), by a probe
+    that tells the token's login state when no session is open (a read-only session can be opened iff the SO is not logged
+    in; its state tells whether the user is), and the answers must equal those before the call"""
+    import random
+    from p11i import P11
+    rng = random.Random(seed * 67867967 + idx)
+    p = P11(p11drv, lib)
+    findings = []
+    SO, USER = '31323334', '35363738'
+
+    def bad(m):
+        findings.append((m, len(p.trace) - 1))
+    try:
+        p.op('init')
+        p.op('inittoken tfree %s tok0' % SO)
+        s = p.op('open t0 rw').get('h')
+        p.op('login %s 0 %s' % (s, SO))
+        p.op('initpin %s %s' % (s, USER))
+        p.op('logout %s' % s)
+        p.op('close %s' % s)
+        sess = []
+
+        def state():
+            st = tuple((x, p.op('sinfo %s' % x).get('state')) for x in sess)
+            probe = None
+            if not sess:
+                r = p.op('open t0 ro')
+                probe = (r.get('rv'), None)
+                if r.get('h'):
+                    probe = (r.get('rv'), p.op('sinfo %s' % r['h']).get('state'))
+                    p.op('close %s' % r['h'])
+            return (st, probe)
+        for _ in range(rng.randint(10, 18)):
+            if findings:
+                break
+            c = rng.random()
+            if c < 0.3 and len(sess) < 3:
+                r = p.op('open t0 %s' % rng.choice(['rw', 'rw', 'ro']))
+                if r.get('h'):
+                    sess.append(r['h'])
+                continue
+            if c < 0.4 and sess:
+                x = sess.pop(rng.randrange(len(sess)))
+                p.op('close %s' % x)
+                continue
+            if c < 0.55 and sess:
+                p.op('login %s %d %s' % (rng.choice(sess), *rng.choice([(1, USER), (0, SO)])))
+                continue
+            if c < 0.62 and sess:
+                p.op('logout %s' % rng.choice(sess))
+                continue
+            # a call meant to fail
+            before = state()
+            x = rng.choice(sess) if sess else 'h99'
+            line = rng.choice([
+                'inittoken t0 %s nulllabel' % SO, 'inittoken t0 %s nulllabel' % SO, 'inittoken t0 %s tok0' % '39393939', 'inittoken t0 null tok0',
+                'login %s 1 %s' % (x, '30303030'), 'login %s 0 %s' % (x, '30303030'), 'login %s 7 %s' % (x, USER), 'login %s 1 null' % x,
+                'initpin %s null' % x, 'initpin %s 3131' % x, 'setpin %s 30303030 41414141' % x, 'setpin %s %s 4141' % (x, USER), 'setpin %s null %s' % (x, USER),
+                'open t0 2', 'open #999 rw', 'close h98', 'logout h97'])
+            r = p.op(line)
+            if r.get('rv') in ('0x0', 'DIED', 'HANG', None):
+                if line.startswith('inittoken') and r.get('rv') == '0x0':
+                    sess = []          # it was a valid re-initialisation after all (no session was open)
+                    p.op('open t0 rw'); p.op('closeall t0')
+                    s2 = p.op('open t0 rw').get('h')
+                    if s2:
+                        p.op('login %s 0 %s' % (s2, SO)); p.op('initpin %s %s' % (s2, USER)); p.op('logout %s' % s2); p.op('close %s' % s2)
+                continue
+            after = state()
+            if after != before:
+                bad('the failing call "%s" (%s) changed sessions or login state: %s -> %s' % (line, r.get('rv'), before, after))
+    finally:
+        p.close()
+    return {'i': idx, 'trace': p.trace, 'findings': findings, 'model_dis': [], 'model_evals': 0, 'stats': {}}
